@@ -140,6 +140,9 @@ func (c *Ctx) fieldChanCap(f *types.Var) (cap int64, sites int) {
 			if !ok || fieldAddrVar(fa) != f {
 				return
 			}
+			if isNilConst(st.Val) {
+				return // resetting the field to nil does not change the capacity of the channel that was made
+			}
 			mc, ok := st.Val.(*ssa.MakeChan)
 			if !ok {
 				sites++
